@@ -1,7 +1,7 @@
 (* C10 property theorems: statements only, each closed by `exact`, with Print Assumptions. *)
 From Coq Require Import ZArith QArith List Bool.
 From Coq Require PrimFloat.
-From QE Require Import Base.Num C10.Model C10.Proofs C10.Proofs2 C10.Findings.
+From QE Require Import Base.Num C10.Model C10.Proofs C10.Proofs2 C10.Proofs3 C10.Findings.
 Import ListNotations.
 Open Scope Z_scope.
 
@@ -128,6 +128,40 @@ Theorem C10_bracket_least : forall (T : Type) (N : Num T) (fin : T -> Prop),
 Proof. intros T N. exact (@bracket_least T N). Qed.
 Print Assumptions C10_bracket_least.
 
+(* ---- the CSR kernel.  A CSR matrix is the flattening (data, indices, indptr) of a list of rows of stored entries
+   (column, probability) in storage order: unsorted columns, duplicates, explicit zeros allowed.  For any arithmetic
+   with F1, F2: no out-of-bounds read of cdfs1d / indices / indptr, and every step selects a stored position k of the
+   current row with positive probability, bracketed by the cumulative sums of that row's slice, and moves to its column. *)
+Theorem C10_path_sparse_valid : forall (T : Type) (N : Num T) (scal_ok : T -> Prop),
+  (forall u c, scal_ok c -> unitv u -> nltb (nmul u c) c = true) ->
+  (forall u c, scal_ok c -> unitv u -> nltb (nmul u c) nzero = false) ->
+  (forall x p v, nleb nzero p = true -> nltb nzero p = false -> nltb v (nadd x p) = nltb v x) ->
+  (forall p v, nleb nzero p = true -> nltb nzero p = false -> nltb v p = true -> nltb v nzero = true) ->
+  forall (rows : list (list (Z * T))) us x,
+    csr_ok scal_ok rows -> 0 <= x < zlen rows -> Forall unitv us ->
+    exists p, path_sparse (cdfs1d_of (zlen rows) (csr_data rows) (csr_indptr rows))
+                          (csr_indices rows) (csr_indptr rows) x us = Ok p /\
+              valid_sparse_path rows x us p.
+Proof. intros T N. exact (@path_sparse_valid T N). Qed.
+Print Assumptions C10_path_sparse_valid.
+
+(* exact arithmetic: stored probabilities non-negative, each row summing to 1, columns in [0,n) *)
+Theorem C10_path_sparse_exact : forall (rows : list (list (Z * Q))) x us,
+  stochastic_csr rows -> 0 <= x < zlen rows -> Forall unit_interval us ->
+  exists p, path_sparse (cdfs1d_of (zlen rows) (csr_data rows) (csr_indptr rows))
+                        (csr_indices rows) (csr_indptr rows) x us = Ok p /\
+            length p = S (length us) /\ Forall (fun s => 0 <= s < zlen rows) p /\
+            valid_sparse_path rows x us p.
+Proof. exact path_sparse_exact. Qed.
+Print Assumptions C10_path_sparse_exact.
+
+Theorem C10_sparse_step_exact : forall rows (row : list (Z * Q)) u k,
+  stochastic_csr rows -> In row rows -> unit_interval u -> step_post (map snd row) u k ->
+  (exists pk, nth_error (map snd row) (Z.to_nat k) = Some pk /\ (0 < pk)%Q) /\
+  (qsum (firstn (Z.to_nat k) (map snd row)) <= u < qsum (firstn (S (Z.to_nat k)) (map snd row)))%Q.
+Proof. exact sparse_step_exact. Qed.
+Print Assumptions C10_sparse_step_exact.
+
 (* ---- the pinned code refutes the property (findings D2 and D10, both repaired in /repo) *)
 Theorem C10_path_in_range_float_refuted :
   exists (P : list (list PrimFloat.float)) (u : PrimFloat.float),
@@ -182,3 +216,16 @@ Example ex_init_states :
   init_states 3 (IArr [0; -1]) (Some 2) [] = Ok (true, [0; -1; 0; -1]) /\
   init_states 3 (IInt 3) None [] = ValueErr /\ init_states 3 INone (Some 2) [1; 2; 0] = Ok (true, [1; 2]).
 Proof. vm_compute. repeat split; reflexivity. Qed.
+
+(* a non-canonical CSR chain: unsorted columns, a duplicate entry and an explicit zero *)
+Definition rows_ex : list (list (Z * Q)) :=
+  [[(2, 1#4); (0, 1#2); (2, 1#4)]; [(0, 0); (1, 1)]; [(1, 1#2); (0, 1#2)]]%Q.
+Example ex_sparse : stochastic_csr rows_ex /\
+  path_sparse (cdfs1d_of (zlen rows_ex) (csr_data rows_ex) (csr_indptr rows_ex)) (csr_indices rows_ex) (csr_indptr rows_ex)
+              0 [1#8; 3#4; 0; 99#100]%Q = Ok [0; 2; 0; 2; 0].
+Proof.
+  split; [|vm_compute; reflexivity].
+  intros row Hrow. simpl in Hrow.
+  destruct Hrow as [<-|[<-|[<-|[]]]]; (split; [|split; [vm_compute; reflexivity|repeat constructor; vm_compute; congruence]]);
+    intros p Hp; simpl in Hp; repeat (destruct Hp as [<-|Hp]; [vm_compute; discriminate|]); destruct Hp.
+Qed.
